@@ -72,6 +72,11 @@ def cases(tier, seed):
                         for others in ("none", "after", "before") if len(st["sizes"]) > 1 else ("none",):
                             if same and i < j:
                                 out.append(dict(st, hermitian=herm, cls="mask-degenerate", pos=[b, i, j], repr=rep, total=2, others=others))
+                                if not herm:
+                                    # non-Hermitian mode accepts asymmetric masks: the degenerate pair selected in one triangle only
+                                    for tri in ("upper", "lower"):
+                                        out.append(dict(st, hermitian=False, cls="mask-degenerate", pos=[b, i, j], repr=rep, total=2,
+                                                        others=others, tri=tri))
                             if not same and herm:
                                 out.append(dict(st, cls="mask-asymmetric", pos=[b, i, j], repr=rep, total=2, others=others))
     # the same on two blocks of equal size (masks of different blocks can then be confused without a shape error)
@@ -202,7 +207,7 @@ def run_case(case):
 
 
 def describe_short(case):
-    keys = ("sizes", "E", "fd", "pos", "repr", "hermitian", "defect", "order", "nsym", "rel", "big", "ops", "others", "bad", "nlev", "split", "drive", "blocks", "which", "solver", "seq")
+    keys = ("sizes", "E", "fd", "pos", "repr", "hermitian", "defect", "order", "nsym", "rel", "big", "ops", "others", "bad", "nlev", "split", "drive", "blocks", "which", "solver", "seq", "tri")
     return {k: case[k] for k in keys if k in case}
 
 
@@ -348,8 +353,10 @@ def _mask_case(case, make_mask):
 def run_mask_degenerate(case):
     def mk(s, i, j):
         m = [[0] * s for _ in range(s)]
-        m[i][j] = 1
-        m[j][i] = 1
+        if case.get("tri", "both") in ("both", "upper"):
+            m[i][j] = 1
+        if case.get("tri", "both") in ("both", "lower"):
+            m[j][i] = 1
         return m
 
     status, res, _ = _mask_case(case, mk)
